@@ -1717,6 +1717,9 @@ def rval_of_ast(text):
                     return '(fset%s)' % ''.join(' ' + go(x) for x in n.args[0].elts)
             items = [go(a) for a in n.args] + ['(kwarg (%s) %s)' % (cps(k.arg), go(k.value)) for k in n.keywords]
             return '(call (%s)%s)' % (cps(name), ''.join(' ' + i for i in items))
+        if isinstance(n, (ast.Name, ast.Attribute)):
+            # a name used as a value: int, datetime.timezone.utc, Color.RED
+            return '(name %s)' % cps(dotted(n))
         raise ValueError('outside the fragment: %s' % type(n).__name__)
     return go(root)
 
@@ -1737,12 +1740,20 @@ def contains_enum(v):
     return False
 
 
+_READER_CASES = []
+
+
 def reader_chunk(cases):
     import sec_stdlib
+    lenient = False
+    if isinstance(cases, tuple):
+        # an index range into the cases built before the pool was forked (stdlib values do not all pickle)
+        lenient = cases[2]
+        cases = _READER_CASES[cases[0]:cases[1]]
     from common import parse_sx as sx_parse
     drv = _driver()
     mism, fails = [], []
-    n = nt = unread = 0
+    n = nt = unread = arith = 0
     for (value, sets) in cases:
         sx = sec_stdlib.sx(value)
         g = drv.ask('(ctoks %s %s)' % (sx, ' '.join(settings_sx(*st) for st in sets)))
@@ -1763,6 +1774,10 @@ def reader_chunk(cases):
             try:
                 want = sx_parse(rval_of_ast(text))
             except Exception as e:
+                if lenient and isinstance(e, ValueError) and str(e) in ('outside the fragment: BinOp', 'outside the fragment: UnaryOp'):
+                    # timedelta prints arithmetic (`-datetime.timedelta(days=3 * 365 + 7)`): outside the reader's fragment, C07.timedelta covers it
+                    arith += 1
+                    break
                 if len(fails) < 3:
                     fails.append({'kind': 'output-outside-the-expression-fragment', 'why': '%s: %s' % (type(e).__name__, e), 'value': repr(value)[:300],
                                   'settings': st, 'text': text[:400]})
@@ -1782,7 +1797,7 @@ def reader_chunk(cases):
         if len(readings) > 1 and len(fails) < 3:
             fails.append({'kind': 'syntax-tree-depends-on-layout', 'value': repr(value)[:300], 'readings': sorted(readings)[:2]})
         nt += 1
-    return n, nt, mism, fails
+    return n, nt, mism, fails, arith
 
 
 def reader_section(tier, seed, mode='all'):
@@ -1801,10 +1816,17 @@ def reader_section(tier, seed, mode='all'):
     if mode in ('c10', 'c11'):
         vals += [V.rand_value(rng, budget=rng.choice([8, 20, 40])) for _ in range(k)]
         vals += subclass_values(rng, k // 3) + [rand_call(rng) for _ in range(k // 3)]
+    if mode in ('all', 'c07'):
+        # stdlib values: calls with dotted callees, names used as values (timezone.utc, Enum members, classes, functions)
+        import sec_stdlib
+        inst = sec_stdlib.instances(rng)
+        if mode == 'all':
+            inst = rng.sample(inst, min(len(inst), k // 2))
+        for x in inst:
+            ctxs = sec_stdlib.nest_contexts(x, rng)
+            vals += ctxs if mode == 'c07' else [rng.choice(ctxs)]
     cases = []
     for v in vals:
-        if contains_enum(v):
-            continue
         if rng.random() < 0.3:
             v2 = add_comments(rng, v, 0.2)
             if not has_trailing_on_empty_dict_subclass(v2):      # K7
@@ -1822,16 +1844,20 @@ def reader_section(tier, seed, mode='all'):
         else:
             sets = [(i, w, r, None, None, 0) for (i, w, r, _, _, _) in settings_for(rng, v, 'quick')[::2]]
         cases.append((v, sets))
-    chunks = [cases[i:i + 25] for i in range(0, len(cases), 25)]
-    tot = nt = 0
+    global _READER_CASES
+    _READER_CASES = cases
+    chunks = [(i, i + 25, mode in ('all', 'c07')) for i in range(0, len(cases), 25)]
+    tot = nt = arith = 0
     mism, fails = [], []
     with mp.Pool(min(NCPU, len(chunks))) as pool:
-        for n, t, mm, ff in pool.imap_unordered(reader_chunk, chunks):
+        for n, t, mm, ff, ar in pool.imap_unordered(reader_chunk, chunks):
             tot += n
             nt += t
+            arith += ar
             mism.extend(mm)
             fails.extend(ff)
     stats = {'evaluations': tot, 'distinct_nontrivial': nt, 'values': len(cases), 'mismatches': len(mism),
+             'values_printed_with_arithmetic_skipped': arith,
              'samples': [{'value': repr(cases[0][0])[:200]}, {'value': repr(cases[-1][0])[:200]}],
              'rule': 'instances of the generated subclasses of the nine built-in bases, pretty_call objects with 0-3 positional / 0-2 keyword arguments and '
                      'built-in value trees, nested in each other, 30% with comments, limits off, 5 layouts each: the reading of the canonical tokens by the '
